@@ -492,12 +492,25 @@ class History:
             res_f, ops_f, _ = execute(d, fresh)
         except Exception as ex:
             exc_f = ex
+        # the same operation once more on another set of fresh equal objects: equal results (no hidden process
+        # wide state such as a generator that is never re-seeded)
+        rep_diff = None
+        if exc_f is None and self.rng.random() < 0.12:
+            try:
+                res_f2, _, _ = execute(d, Fresh(pool))
+                rep_diff = differ(canon(res_f), canon(res_f2), tol=d.get("tol"))
+                ctx.count("op-repeated-on-fresh-objects")
+            except Exception:
+                rep_diff = None
         self.nops += 1
         self.descr.append(d)
         label = d["op"] + ":" + str(d.get("what") or d.get("fn") or d.get("form") or
                                     (d.get("recipe") or {}).get("type") or "")
         ctx.count("op:" + d["op"])
         out = None
+        if rep_diff:
+            out = {"what": f"{d['op']}: repeating the operation on freshly built equal objects gives another result: "
+                           f"{rep_diff}", "sig": {"what": "not-repeatable", "op": d["op"]}}
         if ch:
             out = {"what": f"operand arrays modified by {label}: {ch[:4]}", "sig": {"what": "operand-mutated",
                                                                                    "op": label}}
